@@ -87,6 +87,34 @@ MANIFEST_TEXT["C14"] = {
     "design_ref": "DESIGN.md section 3 / C14",
 }
 
+PLAN["C11"] = {
+    "pkg": "c11",
+    "tests": [
+        {"name": "TestPrintReparse", "quick": (160000, 8), "thorough": (8000000, 16)},
+        {"name": "TestTemplateRewrite", "quick": (96000, 8), "thorough": (4000000, 16)},
+    ],
+    "budget": {"quick": 600, "thorough": 5400},
+    "rule": "expression source drawn from the full Excellent3 grammar (all operators, unary-minus chains, parentheses, dot/index lookups "
+            "with numeric keys, calls of every registered function, anonymous functions, all literal forms, random case/whitespace), "
+            "embedded in templates with surrounding text and evaluated in 2-3 random contexts each. Oracle: Parse(e).String() parses, "
+            "printing is a fixed point after one round, value and template output are equal before/after (errors compare as 'fails alike'); "
+            "identity refactor.Template leaves output unchanged; ContextRefRename(webhook -> webhook.json) evaluated against a context "
+            "with the old value moved under .json gives the same output. Non-trivial = expression has a lookup/call/lambda or >= 2 "
+            "operator classes of different precedence (print test), or the template contains an expression (rewrite test); distinct by "
+            "printed form / (template, context).",
+    "assumptions": COMMON_ASSUMPTIONS + [
+        "has_error() is not generated: it exposes error *text*, which quotes identifiers as written, so it legitimately differs after re-printing",
+        "contexts avoid case-variant duplicate keys (their lookup order is C08's subject)",
+        "powers of powers and 40-digit operands are printed but not evaluated (slow-but-terminating decimal arithmetic)",
+    ],
+}
+MANIFEST_TEXT["C11"] = {
+    "technique": "property-based testing (rapid): grammar-based expression generation; round-trip (parse/print/parse) and metamorphic oracles (identity and rename rewrites evaluate alike in random contexts)",
+    "level_text": "Exploration: every generated expression printed to a fixed point that evaluates identically in all sampled contexts, and both template rewrites preserved template output.",
+    "level_note": "Trusts the harness's canonical value rendering for equality and the random contexts as a sample of 'every context'.",
+    "design_ref": "DESIGN.md section 3 / C11",
+}
+
 # every property without a registered check is listed here with the reason (kept current as checks are added)
 NOT_APPLICABLE = [{"property_id": pid, "reason": "check not built yet in this round (planned in DESIGN.md); nothing is claimed for it"}
                   for pid in ALL_IDS if pid not in PLAN]
